@@ -98,6 +98,8 @@ def cases(tier, seed):
     for seq in (["neg_point", "pos_ext"], ["neg_ext", "blend_nn"], ["blend_pp", "mixed"], ["tiny", "neg_point"], ["faint", "neg_ext"]):
         for noise in ("none", "real0"):
             yield "islandrows", dict(seq=seq, noise=noise, rms="files", docov=False)
+    for k in range(6):
+        yield "border", dict(k=k)
     for amp, spike, off in itertools.product((40.0, 25.0), (12.0, 8.0), ((0, 1), (1, 1), (1, 0))):
         yield "spike", dict(amp=amp, spike=spike, offset=list(off))
     # sources of opposite sign close enough to share ONE island (islands are found on |signal-to-noise|)
@@ -464,6 +466,57 @@ def ev_spike(case, ctx):
             amp, spike, brief(P), brief(N)), "spike|" + sig)
 
 
+def ev_border(case, ctx):
+    """sources of both signs whose brightest pixel lies on the first / last row or column of the image: run(I) and run(-I) are
+    mirror images (count, positions to 0.05 px, fluxes to 1 %)"""
+    d = os.environ["VERIF_SCRATCH"]
+    hdr = header()
+    rows, cols = SHAPE
+    k = case["k"]
+    off = [0.0, 0.3, -0.3][k % 3]
+    spots = [(0.0 + abs(off), 30.0 + 7 * k, 1.0), (rows - 1.0 - abs(off), 70.0 - 5 * k, -1.0), (40.0 + 6 * k, 0.0 + abs(off), -1.0),
+             (85.0 - 4 * k, cols - 1.0 - abs(off), 1.0), (60.0, 60.0, 1.0), (30.0, 95.0, -1.0)]
+    if k >= 3:
+        spots = [(r, c, -sg) for r, c, sg in spots]
+    img = skygauss.render(hdr, SHAPE, [skygauss.source_at_pixel(hdr, r, c, sg * (20 + 3 * j) * SIGMA, 4.0, 3.0, 20.0) for j, (r, c, sg) in enumerate(spots)])
+    img = np.round(img * Q) / Q
+    sig = "border:k=%d" % k
+    res = {}
+    f = os.path.join(d, "c13_border.fits")
+    for sign in (1.0, -1.0):
+        scenes.write_image(f, hdr, sign * img)
+        try:
+            res[sign] = run(f, dict(rms=SIGMA, bkg=0.0), False, False, False)
+        except Exception as e:
+            ctx.violation("finder raised %r on sources peaking on the image border (%s)" % (e, sig), "raise_border|" + sig)
+            return
+        finally:
+            if os.path.exists(f):
+                os.remove(f)
+    ctx.count("border")
+    ctx.nontrivial(sig)
+    P, N = res[1.0], res[-1.0]
+    ctx.outcome("border:%d/%d" % (len(P), len(N)))
+    ok = len(P) == len(N)
+    if ok:
+        cd = abs(hdr["CDELT2"])
+        left = list(N)
+        for a in P:
+            m = [b for b in left if np.hypot((a["ra"] - b["ra"]) * np.cos(np.radians(a["dec"])), a["dec"] - b["dec"]) <= 0.05 * cd
+                 and abs(a["peak_flux"] + b["peak_flux"]) <= 0.01 * abs(a["peak_flux"])]
+            if not m:
+                ok = False
+                break
+            left.remove(m[0])
+    if not ok:
+        ctx.violation("sources of both signs peaking on the first / last row and column: run(I) gives %s but run(-I) gives %s - not mirror images" % (
+            brief(P), brief(N)), "border|" + sig)
+    npos, nneg = sum(s_["peak_flux"] > 0 for s_ in P), sum(s_["peak_flux"] < 0 for s_ in P)
+    if (npos, nneg) != (3, 3):
+        ctx.violation("six sources (three of each sign, four of them peaking on the image border): %d positive and %d negative components (%s)" % (npos, nneg, sig),
+                      "border_count|" + sig)
+
+
 def ev_faint_companion(case, ctx):
     """amplitude limits must be mirror images too: a companion of 4.0-4.8 sigma whose brightest pixel passes the seed level only
     thanks to the wing of its bright neighbour"""
@@ -504,6 +557,8 @@ def evaluate(clause, case, ctx):
         return ev_islandrows(case, ctx)
     if clause == "spike":
         return ev_spike(case, ctx)
+    if clause == "border":
+        return ev_border(case, ctx)
     if clause == "mixed_island":
         return ev_mixed_island(case, ctx)
     if clause == "faint_companion":
